@@ -73,7 +73,38 @@ InitRegs(T) ==
         ELSE IF r = Meta.zero THEN ZeroV(XL)
         ELSE Sentinel(r)]
 
+(***************************************************************************)
+(* ARMv6-M has only the 16-bit Thumb encodings: a conditional branch reaches *)
+(* -256..+254 bytes from PC+4, an unconditional one -2048..+2046; loads and  *)
+(* stores take r0-r7 with a word offset of 0..124 (0..1020 from sp); the     *)
+(* data-processing instructions are two-operand, low registers, no shifted   *)
+(* operand; add/sub immediates are 0..255 (same register) or 0..7.  Every    *)
+(* instruction of the program must have such an encoding (Meta.enc, set by   *)
+(* the translator for the armv6m target; all instructions are 2 bytes).      *)
+(***************************************************************************)
+Abs(x) == IF x < 0 THEN -x ELSE x
+T1OK(i) ==
+    LET J == Prog[i]
+        off == 2 * (J.t - (i + 2))
+    IN  CASE J.op = "br" -> IF J.cond = "always" THEN off \in -2048..2046 ELSE off \in -256..254
+          [] J.op \in {"ld", "st"} -> /\ J.d < 8 /\ J.imm % 4 = 0
+                                       /\ IF J.a = Meta.sp THEN J.imm \in 0..1020 ELSE J.a < 8 /\ J.imm \in 0..124
+          [] J.op = "alu" /\ J.f # "mov" -> J.d < 8 /\ J.b < 8 /\ J.a = J.d /\ J.sk = 0
+          [] J.op = "shi" -> J.d < 8 /\ J.a < 8 /\ J.imm \in 0..32
+          [] J.op = "addi" -> \/ J.d = J.a /\ J.d < 8 /\ Abs(J.imm) <= 255
+                              \/ J.d < 8 /\ J.a < 8 /\ Abs(J.imm) <= 7
+                              \/ J.d = Meta.sp /\ J.a = Meta.sp /\ Abs(J.imm) <= 508 /\ J.imm % 4 = 0
+          [] OTHER -> TRUE
+EncodingOK ==
+    IF "enc" \in DOMAIN Meta /\ Meta.enc = "thumb1"
+    THEN \A i \in 1..Len(Prog) :
+            IF T1OK(i) THEN TRUE
+            ELSE PrintT(ToJson([isafail |-> "the instruction has no ARMv6-M (16-bit Thumb) encoding: branch out of reach, high register, or immediate out of range",
+                                test |-> 1, pc |-> i]))
+    ELSE TRUE
+
 Init == /\ tst \in 1..Len(Tests)
+        /\ (tst = 1 => EncodingOK)
         /\ pc = 1 /\ R = InitRegs(Tests[tst]) /\ M = InitMem(Tests[tst])
         /\ Z = FALSE /\ sar = -1 /\ tR = {} /\ tM = {} /\ tZ = TRUE /\ halted = FALSE /\ steps = 0
         /\ TLCSet(1, 0) /\ TLCSet(2, 0)
